@@ -4,6 +4,7 @@ mod gen;
 mod gramspec;
 mod lexspec;
 mod pp;
+mod pfam;
 mod p01;
 mod p02;
 mod p04;
